@@ -391,6 +391,9 @@ def rule_dso(ctx):
                 c = [core(s) for s in (a[2], a[3]) if is_const(core(s))]
                 if f and c:
                     consts.setdefault(f[0][2], set()).add(c[0][1])
+            elif core(a)[0] == "field":
+                # `match x.d_tag { DT_DEBUG => .., DT_NULL => .., _ => .. }`: the switch is on the field itself
+                consts.setdefault(core(a)[2], set()).update(v for v, tb in b.term(x)["targets"] if isinstance(v, int))
     ctx.check(consts.get("p_type", set()) >= {1, 2} and consts.get("d_tag", set()) >= {21, 0}, R, "elf-constants", b.where(0), "p_type is tested against PT_LOAD/PT_DYNAMIC and d_tag against DT_DEBUG/DT_NULL", "constants compared: %s" % consts)
     # the dynamic section ends at its first DT_NULL: DT_DEBUG is taken only from the one entry a read just delivered, under the test of
     # THAT entry's tag (so nothing behind the terminator is ever looked at: the loop leaves on the same entry's DT_NULL)
@@ -409,10 +412,16 @@ def rule_dso(ctx):
                 nst += 1
                 ent = strip(v[1]) if v[0] == "field" and v[2] == "d_val" else None
                 oke = ent is not None and any(q[0] == "call" and q[1].split("::")[-1] == "first" for q in walk(ent)) and any(q[0] == "call" and q[1].endswith("copy_from_process") for q in walk(ent))
-                dnf = conditions(b, bi, origin=o, relevant=lambda a: a[0] == "bin" and a[1] == "Eq" and any(q[0] == "field" and q[2] == "d_tag" for q in walk(a)))
+                dnf = conditions(b, bi, origin=o, relevant=lambda a: (a[0] == "bin" and a[1] == "Eq" and any(q[0] == "field" and q[2] == "d_tag" for q in walk(a))) or (core(a)[0] == "field" and core(a)[2] == "d_tag"))
                 okt = False
+
+                def _is_debug_test(a, v_):
+                    if a[0] == "bin":
+                        return v_ == 1 and {core(a[2]), core(a[3])} >= {("const", 21, "u64")} and any(q[0] == "field" and q[2] == "d_tag" and nosite(strip(q[1])) == nosite(ent) for q in (core(a[2]), core(a[3])))
+                    q = core(a)
+                    return v_ == 21 and nosite(strip(q[1])) == nosite(ent)    # the `match` form: switch on the tag itself, arm 21
                 if oke and dnf:
-                    okt = all(any(v_ == 1 and {core(a[2]), core(a[3])} >= {("const", 21, "u64")} and any(q[0] == "field" and q[2] == "d_tag" and nosite(strip(q[1])) == nosite(ent) for q in (core(a[2]), core(a[3]))) for (a, v_) in c) for c in dnf)
+                    okt = all(any(_is_debug_test(a, v_) for (a, v_) in c) for c in dnf)
                 ctx.check(oke and okt, R, ("debug-entry", nst), b.where(bi, si), "r_debug is the d_val of the single entry just read, taken under that entry's d_tag == DT_DEBUG",
                           "r_debug is taken from %s without the test `d_tag == DT_DEBUG` of the one entry just read: entries behind the DT_NULL terminator (not part of the dynamic section) can supply it" % show(v)[:100])
         ctx.floor(R, "stores of r_debug from the target", nst, 1)
